@@ -511,3 +511,67 @@ M("C11", "post-without-body-unframed", "util/request.py",
   "_METHODS_NOT_EXPECTING_BODY = {\"GET\", \"HEAD\", \"DELETE\", \"TRACE\", \"OPTIONS\", \"CONNECT\"}", "_METHODS_NOT_EXPECTING_BODY = {\"GET\", \"HEAD\", \"DELETE\", \"TRACE\", \"OPTIONS\", \"CONNECT\", \"POST\"}", rule="C11-R1")
 M("C05", "303-keeps-body-pos", "connectionpool.py",
   "                # The recorded position belonged to the body that was dropped.\n                body_pos = None\n", "", rule="C05-R4")
+
+# --------------------------------------------------------------------------- C12
+M("C12", "read-all-skips-queue-again", "response.py",
+  "            if len(self._decoded_buffer) > 0:\n                # Bytes decoded by earlier partial reads come first.\n                self._decoded_buffer.put(data)\n                data = self._decoded_buffer.get_all()\n", "", rule="C12-R1")
+M("C12", "read1-returns-decoded-directly", "response.py",
+  "        if amt is None:\n            return self._decoded_buffer.get_all()\n        return self._decoded_buffer.get(amt)\n\n    def stream(",
+  "        if amt is None:\n            return decoded_data\n        return self._decoded_buffer.get(amt)\n\n    def stream(", rule="C12-R1")
+M("C12", "stream-yields-unguarded", "response.py",
+  "                data = self.read(amt=amt, decode_content=decode_content)\n\n                if data:\n                    yield data",
+  "                data = self.read(amt=amt, decode_content=decode_content)\n\n                yield data", rule="C12-R2")
+M("C12", "chunked-yields-empty-decoded", "response.py",
+  "                if decoded:\n                    yield decoded\n\n            if decode_content:", "                yield decoded\n\n            if decode_content:", rule="C12-R2")
+M("C12", "zstd-reuses-finished-obj-again", "response.py",
+  "            if self._obj.eof:\n                # The previous frame ended exactly at the end of the last input.\n                self._obj = zstd.ZstdDecompressor().decompressobj()\n", "", rule="C12-R3")
+M("C12", "gzip-no-new-obj-for-next-member", "response.py",
+  "            self._state = GzipDecoderState.OTHER_MEMBERS\n            self._obj = zlib.decompressobj(16 + zlib.MAX_WBITS)", "            self._state = GzipDecoderState.OTHER_MEMBERS", rule="C12-R3")
+M("C12", "multidecoder-forward-order", "response.py",
+  "        for d in reversed(self._decoders):", "        for d in self._decoders:", rule="C12-R4")
+M("C12", "multidecoder-flushes-first-applied", "response.py",
+  "        return self._decoders[0].flush()", "        return self._decoders[-1].flush()", rule="C12-R4")
+M("C12", "zstd-registered-without-error-class", "response.py",
+  "    if HAS_ZSTD:\n        DECODER_ERROR_CLASSES += (zstd.ZstdError,)\n", "", rule="C12-R5")
+M("C12", "no-flush-on-read-all", "response.py",
+  "        flush_decoder = amt is None or (amt != 0 and not data)", "        flush_decoder = amt != 0 and not data", rule="C12-R6")
+M("C12", "stream-stops-with-queued-bytes", "response.py",
+  "            while not is_fp_closed(self._fp) or len(self._decoded_buffer) > 0:", "            while not is_fp_closed(self._fp):", rule="C12-R7")
+M("C12", "zstd-flush-accepts-incomplete", "response.py",
+  "            if not self._obj.eof:\n                raise DecodeError(\"Zstandard data is incomplete\")\n", "", rule="C12-R3")
+M("C12", "sized-read-returns-decoded-directly", "response.py",
+  "            decoded_data = self._decode(data, decode_content, flush_decoder)\n            self._decoded_buffer.put(decoded_data)\n\n            while len(self._decoded_buffer) < amt and data:",
+  "            decoded_data = self._decode(data, decode_content, flush_decoder)\n            if len(decoded_data) >= amt:\n                return decoded_data[:amt]\n            self._decoded_buffer.put(decoded_data)\n\n            while len(self._decoded_buffer) < amt and data:", rule="C12-R1")
+
+# --------------------------------------------------------------------------- C13
+M("C13", "read1-no-amount-accepts-short-body-again", "response.py",
+  "            if amt != 0 and not data and (amt is not None or read1):", "            if amt is not None and amt != 0 and not data:", rule="C13-R1")
+M("C13", "incomplete-read-raise-dropped", "response.py",
+  "                    raise IncompleteRead(self._fp_bytes_read, self.length_remaining)\n", "                    log.debug(\"short body\")\n", rule="C13-R1")
+M("C13", "enforce-only-when-remaining-large", "response.py",
+  "                    and self.length_remaining is not None\n                    and self.length_remaining != 0\n",
+  "                    and self.length_remaining is not None\n                    and self.length_remaining > 1\n", rule="C13-R1")
+M("C13", "empty-size-line-is-zero", "response.py",
+  "        line = line.split(b\";\", 1)[0]\n        try:\n            self.chunk_left = int(line, 16)",
+  "        line = line.split(b\";\", 1)[0]\n        try:\n            self.chunk_left = int(line or b\"0\", 16)", rule="C13-R2")
+M("C13", "bad-chunk-size-not-closed", "response.py",
+  "        except ValueError:\n            self.close()\n            if line:", "        except ValueError:\n            if line:", rule="C13-R2")
+M("C13", "chunk-size-decimal", "response.py",
+  "            self.chunk_left = int(line, 16)", "            self.chunk_left = int(line)", rule="C13-R2")
+M("C13", "chunk-payload-via-fp-read", "response.py",
+  "            chunk = self._fp._safe_read(self.chunk_left)  # type: ignore[union-attr]\n            returned_chunk = chunk",
+  "            chunk = self._fp.fp.read(self.chunk_left)  # type: ignore[union-attr]\n            returned_chunk = chunk", rule="C13-R3")
+M("C13", "decode-error-returns-raw", "response.py",
+  "        except self.DECODER_ERROR_CLASSES as e:\n            content_encoding = self.headers.get(\"content-encoding\", \"\").lower()\n            raise DecodeError(",
+  "        except self.DECODER_ERROR_CLASSES as e:\n            content_encoding = self.headers.get(\"content-encoding\", \"\").lower()\n            if not data:\n                return data\n            raise DecodeError(", rule="C13-R4")
+M("C13", "conflicting-lengths-take-first", "response.py",
+  "                if len(lengths) > 1:\n                    raise InvalidHeader(", "                if len(lengths) > 2:\n                    raise InvalidHeader(", rule="C13-R5")
+M("C13", "enforce-default-off-in-make-request", "connectionpool.py",
+  "        decode_content: bool = True,\n        enforce_content_length: bool = True,\n    ) -> BaseHTTPResponse:", "        decode_content: bool = True,\n        enforce_content_length: bool = False,\n    ) -> BaseHTTPResponse:", rule="C13-R8")
+M("C13", "preload-via-raw-read", "response.py",
+  "            self._body = self.read(decode_content=decode_content)", "            self._body = self._fp.read() if self._fp else b\"\"", rule="C13-R7")
+M("C13", "gzip-swallows-first-member-error", "response.py",
+  "                if previous_state == GzipDecoderState.OTHER_MEMBERS:\n                    # Allow trailing garbage acceptable in other gzip clients\n                    return bytes(ret)\n                raise",
+  "                return bytes(ret)", rule="C13-R4")
+M("C13", "chunk-loop-stops-on-empty-chunk", "response.py",
+  "                chunk = self._handle_chunk(amt)\n                decoded = self._decode(", "                chunk = self._handle_chunk(amt)\n                if not chunk:\n                    break\n                decoded = self._decode(", rule="C13-R2")
